@@ -976,6 +976,13 @@ def check_C06(P, tier, SA, holder):
                             alg.exp(IMAG * (lx * (S.xm - S.xmx / 2) + ly * (S.ym - S.ymx / 2))) * c0, "value at the domain centre is the field at (xm, ym)", key={"out": nm}))
         if isinstance(c0, Expr):
             R.add(req_ob("R-PHASE", d1.site("dispersion re-centring"), "%s: unshifted path carries no tower dependence" % nm, not ({atom_of(S.xm), atom_of(S.ym)} & c0.atoms())))
+    # a dispersion path that does not re-centre must have established that the measurement point is the origin: any other
+    # condition (xm > ym, xm * ym != 0, ...) leaves towers that are silently not re-centred
+    for du in pick(vd, shifted=False):
+        at_origin = du.possible(S.xm * S.xm + S.ym * S.ym) <= {"0"} or (du.possible(S.xm) <= {"0"} and du.possible(S.ym) <= {"0"})
+        tower_tests = [(e, op, d) for e, op, d in getattr(du.r, "constraints", []) if {atom_of(S.xm), atom_of(S.ym)} & set(e.atoms())]
+        R.add(req_ob("R-PHASE", du.site("dispersion re-centring"), "a path without re-centring is taken only for a measurement point at the origin", at_origin if (at_origin or tower_tests) else None,
+                     detail=None if at_origin else "the path is selected by %s, which does not force xm = ym = 0" % "; ".join("%r %s 0 is %s" % t for t in tower_tests[:2]), key={"clause": "origin-only"}))
     kx = alg.fn("fftidx", f.nlx_eff, integer=True)
     R.add(eq_ob("R-PHASE", f.site("wavenumbers"), "lx*dx = 2 pi k/nxe with integer k (whole-cell shifts are exact)", lx * f.dx, 2 * RS.PI() * kx / f.Nx))
     ky = alg.fn("fftidx", f.nly_eff, integer=True)
